@@ -107,7 +107,7 @@ public:
                bufs[w].erase(0, off);
             } else if (r == 0 || (r < 0 && errno != EINTR && errno != EAGAIN)) {
                close(fds[w]); fds[w] = -1; int st = 0; waitpid(pids[w], &st, 0);
-               if (finished[w] && WIFEXITED(st) && WEXITSTATUS(st) == 0) { alive--; if (nextStart[w] < n && _haveDeadline) complete = false; continue; }
+               if (finished[w] && WIFEXITED(st) && WEXITSTATUS(st) == 0) { alive--; continue; }   // completeness is decided at the end by executed == n
                // ---- the worker died inside case `cur`
                size_t cur = (size_t)sh->current[w];
                if (sh->current[w] == ~(uint64_t)0 || cur >= n) { _res.infra_errors.push_back(_part + ": worker died outside any case"); alive--; continue; }
